@@ -27,7 +27,7 @@ import (
 )
 
 type MultiStats struct {
-	Scenarios, Steps, Bindings, NetScenarios, NetOverlaps int
+	Scenarios, Steps, Bindings, NetScenarios, NetOverlaps, BusyScenarios, AnyScenarios int
 }
 
 var Multi MultiStats
@@ -343,6 +343,150 @@ func NetmachScenario(seed int64) (fails []string, line string) {
 		Multi.NetOverlaps++
 		multiMu.Unlock()
 		if !settleOK() {
+			return fails, line
+		}
+	}
+	return fails, line
+}
+
+// BusyTargetScenario: the piped mutation waits in the busy target's queue behind somebody else's
+// mutation that names the same target state next to another one and is rejected as a whole (a
+// Require of the other state is not met): the piped mutation must still take effect. Then the same
+// for a removal.
+func BusyTargetScenario(seed int64) (fails []string, line string) {
+	r := rand.New(rand.NewSource(seed))
+	line = fmt.Sprintf("busytarget seed=%d", seed)
+	ctx, cancel := context.WithCancel(context.Background())
+	defer cancel()
+	source := am.New(ctx, am.Schema{"S1": {}}, &am.Opts{Id: fmt.Sprintf("bsrc%d", seed%100000)})
+	target := am.New(ctx, am.Schema{"T1": {}, "Z": {Require: am.S{"W"}}, "W": {}, "Busy": {Multi: true}}, &am.Opts{Id: fmt.Sprintf("btgt%d", seed%100000), HandlerTimeout: 5 * time.Second})
+	defer func() { source.Dispose(); target.Dispose() }()
+	var gmu sync.Mutex
+	var gate chan struct{}
+	entered := make(chan struct{}, 2)
+	if _, err := target.HandlersBindMaps(nil, map[string]am.HandlerFinal{"BusyState": func(e *am.Event) {
+		gmu.Lock()
+		g := gate
+		gmu.Unlock()
+		select {
+		case entered <- struct{}{}:
+		default:
+		}
+		if g != nil {
+			select {
+			case <-g:
+			case <-time.After(2 * time.Second):
+			}
+		}
+	}}, am.BindOpts{Id: "busy"}); err != nil {
+		return []string{"setup: " + err.Error()}, line
+	}
+	if _, err := ampipe.Bind(source, target, "S1", "T1", ""); err != nil {
+		return []string{"binding failed: " + err.Error()}, line
+	}
+	multiMu.Lock()
+	Multi.BusyScenarios++
+	multiMu.Unlock()
+	round := func(add bool) bool {
+		g := make(chan struct{})
+		gmu.Lock()
+		gate = g
+		gmu.Unlock()
+		for len(entered) > 0 {
+			<-entered
+		}
+		go target.Add1("Busy", nil)
+		select {
+		case <-entered:
+		case <-time.After(2 * time.Second):
+			close(g)
+			fails = append(fails, "setup: the target never became busy")
+			return false
+		}
+		q0 := int(target.QueueLen())
+		what := "Add(T1, Z)"
+		// somebody else's mutation, queued first: rejected as a whole (Z requires W, which is not active)
+		if add {
+			target.Add(am.S{"T1", "Z"}, nil)
+			source.Add1("S1", nil)
+		} else {
+			what = "Remove(T1, W) with Z... (third party) then the piped removal"
+			target.Remove(am.S{"T1", "Busy"}, nil)
+			source.Remove1("S1", nil)
+		}
+		// the piped mutation has reached the target's queue
+		waitUntil(300*time.Millisecond, func() bool { return int(target.QueueLen()) >= q0+2 })
+		time.Sleep(time.Duration(r.Intn(5)) * time.Millisecond)
+		gmu.Lock()
+		gate = nil
+		gmu.Unlock()
+		close(g)
+		ok := waitUntil(700*time.Millisecond, func() bool {
+			return target.QueueLen() == 0 && target.Is1("T1") == source.Is1("S1")
+		})
+		if !ok {
+			fails = append(fails, fmt.Sprintf("a piped mutation was lost in the busy target's queue: it was queued behind %s made by somebody else; at quiescence the source state S1 is active=%v and the piped target state T1 is active=%v", what, source.Is1("S1"), target.Is1("T1")))
+		}
+		return ok
+	}
+	if !round(true) {
+		return fails, line
+	}
+	round(false)
+	return fails, line
+}
+
+// BindAnyScenario: "with BindAny the target's active set equals the source's" - every step is left
+// to settle (BindAny calls the target from the source's AnyState handler, inline).
+func BindAnyScenario(seed int64) (fails []string, line string) {
+	r := rand.New(rand.NewSource(seed))
+	line = fmt.Sprintf("bindany seed=%d", seed)
+	ctx, cancel := context.WithCancel(context.Background())
+	defer cancel()
+	names := am.S{"A", "B", "C", "D"}
+	sch := am.Schema{}
+	for _, n := range names {
+		sch[n] = am.State{}
+	}
+	source := am.New(ctx, sch, &am.Opts{Id: fmt.Sprintf("asrc%d", seed%100000)})
+	target := am.New(ctx, sch, &am.Opts{Id: fmt.Sprintf("atgt%d", seed%100000)})
+	defer func() { source.Dispose(); target.Dispose() }()
+	if _, err := ampipe.BindAny(source, target); err != nil {
+		return []string{"binding failed: " + err.Error()}, line
+	}
+	multiMu.Lock()
+	Multi.AnyScenarios++
+	multiMu.Unlock()
+	var hist []string
+	same := func() bool {
+		for _, n := range names {
+			if source.Is1(n) != target.Is1(n) {
+				return false
+			}
+		}
+		return true
+	}
+	for i, k := 0, 5+r.Intn(10); i < k; i++ {
+		var st am.S
+		for _, n := range names {
+			if r.Intn(3) == 0 {
+				st = append(st, n)
+			}
+		}
+		if len(st) == 0 {
+			st = am.S{names[r.Intn(len(names))]}
+		}
+		switch r.Intn(3) {
+		case 0, 1:
+			source.Add(st, nil)
+			hist = append(hist, "+"+strings.Join(st, ","))
+		default:
+			source.Remove(st, nil)
+			hist = append(hist, "-"+strings.Join(st, ","))
+		}
+		if !waitUntil(500*time.Millisecond, func() bool { return target.QueueLen() == 0 && same() }) {
+			fails = append(fails, fmt.Sprintf("BindAny: the target's active set differs from the source's although every step was left to settle: after %s the source holds %v and the target %v",
+				strings.Join(hist, " "), source.ActiveStates(nil), target.ActiveStates(nil)))
 			return fails, line
 		}
 	}
